@@ -230,8 +230,13 @@ func (g *G) guarded(c *gctx, s *N) *N {
 }
 
 func (g *G) existProbe() *N {
+	nm := g.name()
+	if g.chance(25) {
+		// names that only exist inside catch blocks must not be visible anywhere else
+		nm = rapid.SampledFrom([]string{"e", "e2", "err"}).Draw(g.t, "catchname")
+	}
 	return &N{K: "try", Ss: [][]*N{
-		{{K: "expr", Ns: []*N{P1(g.id(), Id(g.name()))}}},
+		{{K: "expr", Ns: []*N{P1(g.id(), Id(nm))}}},
 		{{K: "expr", Ns: []*N{P1(g.id(), Str("undef"))}}},
 	}}
 }
